@@ -2,6 +2,8 @@
 // The text between the EXTRACTED markers is copied verbatim from /repo/src/popen.rs on every run.
 #![allow(dead_code, unused_imports, unused_mut, unused_variables)]
 use std::io::{self, BufRead, Write};
+// module names the extracted functions may refer to through `use` lines of their own module (those lines are not extracted)
+use std::{char, cmp, iter, mem, ptr, slice};
 
 mod osshim {
     /// stand-in for both `OsString` and `OsStr` on Windows: a vector of UTF-16 code units
